@@ -114,6 +114,20 @@ func vServe(nc *nats.Conn, subject string, handler func(*nats.Msg)) {
 	_ = nc.Flush()
 }
 
+// vPublish injects a message from another party and waits until the bus has
+// delivered it.
+func vPublish(nc *nats.Conn, subject string, data []byte) {
+	st := vNats[nc]
+	st.mu.Lock()
+	st.injected[subject+"\x00"+string(data)]++
+	st.mu.Unlock()
+	_ = nc.Flush() // make sure subscriptions made so far are known to the server
+	if err := st.inj.Publish(subject, data); err != nil {
+		panic(vDesync{"publish: " + err.Error()})
+	}
+	vSettle(nc)
+}
+
 // vGo starts f as a goroutine; the engine runs it to completion at once and
 // replays its channel operations in program order.
 func vGo(f func()) { go f() }
